@@ -21,6 +21,17 @@ use crate::contract_class::{ContractClass, ContractEntryPoints};
 #[path = "../shared/e2e_corpus.rs"]
 mod e2e_corpus;
 
+/// The assembled bytecode (and hints) of a program, when it compiles.
+fn casm_of(p: &cairo_lang_sierra::program::Program) -> Option<String> {
+    use cairo_lang_sierra_to_casm::compiler::{compile, SierraToCasmConfig};
+    use cairo_lang_sierra_to_casm::metadata::{calc_metadata, calc_metadata_ap_change_only};
+    let info = cairo_lang_sierra_type_size::ProgramRegistryInfo::new(p).ok()?;
+    let (md, gas) = match calc_metadata(p, &info, Default::default()) { Ok(m) => (m, true), Err(_) => (calc_metadata_ap_change_only(p, &info).ok()?, false) };
+    let casm = compile(p, &info, &md, SierraToCasmConfig { gas_usage_check: gas, max_bytecode_size: usize::MAX }).ok()?;
+    let a = casm.assemble();
+    Some(format!("{:?} {:?}", a.bytecode, a.hints))
+}
+
 fn check(text: &str) -> Result<bool, String> {
     let Ok(original) = ProgramParser::new().parse(text) else { return Ok(false) };
     let canonical = CanonicalReplacer::from_program(&original).apply(&original);
@@ -43,6 +54,17 @@ fn check(text: &str) -> Result<bool, String> {
         return Err(format!("print -> parse of the program read back with its debug names is not isomorphic to the published program: {line}"));
     }
     if reparsed.to_string() != printed { return Err("display is not a fixpoint after one round".into()); }
+    // "compiling the round-tripped program produces byte-identical CASM. Replacing numeric ids by
+    // debug names (or stripping them) never changes the generated CASM."
+    if let Some(want) = casm_of(&canonical) {
+        for (what, p) in [("the source text", &original), ("the program read back without debug names", &plain), ("the program read back with debug names", &named), ("print -> parse of the program read back", &reparsed)] {
+            match casm_of(p) {
+                Some(got) if got == want => {}
+                Some(_) => return Err(format!("the CASM compiled from {what} differs from the CASM of the canonical program")),
+                None => return Err(format!("{what} does not compile although the canonical program does")),
+            }
+        }
+    }
     Ok(true)
 }
 
